@@ -259,19 +259,19 @@ func execMatch(tspec, compsS, verbS string) string {
 	head := fmt.Sprintf("%s %s %s %s %s", ast, ops, hexList(tp.Pool), common.HexS(tp.Verb), hexList(tp.Fields))
 	pat, err := runtime.NewPattern(tp.Version, tp.OpCodes, tp.Pool, tp.Verb)
 	if err != nil {
-		return head + " E -"
+		return "- E " + head
 	}
 	res, err := pat.MatchAndEscape(comps, verb, runtime.UnescapingModeAllExceptReserved)
 	var mse runtime.MalformedSequenceError
 	switch {
 	case err == nil:
-		return head + " P ok:" + canonParams(res)
+		return "ok:" + canonParams(res) + " P " + head
 	case errors.As(err, &mse):
-		return head + " P mal"
+		return "mal P " + head
 	case errors.Is(err, runtime.ErrNotMatch):
-		return head + " P nm"
+		return "nm P " + head
 	}
-	return head + " P othererr"
+	return "othererr P " + head
 }
 
 func readRequest(target string) (*http.Request, error) {
@@ -304,7 +304,7 @@ func execURL(kind, target string) string {
 	default:
 		return "BADKIND"
 	}
-	return fmt.Sprintf("%s %s %s", common.HexS(u.Path), common.HexS(u.RawPath), common.HexS(u.EscapedPath()))
+	return fmt.Sprintf("ok %s %s %s", common.HexS(u.Path), common.HexS(u.RawPath), common.HexS(u.EscapedPath()))
 }
 
 type fakeConn struct{}
@@ -358,7 +358,7 @@ func execRoute(table, method, kind, x string) string {
 	case "req":
 		r, err := readRequest(x)
 		if err != nil {
-			return head + " urlerr"
+			return "urlerr " + head
 		}
 		req = r
 		req.Method = method
@@ -374,14 +374,14 @@ func execRoute(table, method, kind, x string) string {
 		st, _ := status.FromError(err)
 		switch st.Code() {
 		case codes.NotFound:
-			return head + " err:NotFound"
+			return "err:NotFound " + head
 		case codes.InvalidArgument:
-			return head + " err:InvalidArgument"
+			return "err:InvalidArgument " + head
 		}
-		return head + " err:" + st.Code().String()
+		return "err:" + st.Code().String() + " " + head
 	}
 	if conn == nil || route.Target == nil || route.Service == nil || route.Method == nil || route.Binding == nil {
-		return head + " incomplete-route"
+		return "incomplete-route " + head
 	}
 	ti, si, mi, bi := -1, -1, -1, "d"
 	for i, t := range targets {
@@ -414,7 +414,7 @@ func execRoute(table, method, kind, x string) string {
 			}
 		}
 	}
-	return fmt.Sprintf("%s found:%d:%d:%d:%s:%s", head, ti, si, mi, bi, canonParams(route.PathParams))
+	return fmt.Sprintf("found:%d:%d:%d:%s:%s %s", ti, si, mi, bi, canonParams(route.PathParams), head)
 }
 
 // ---------------------------------------------------------------------------------------------
